@@ -63,7 +63,7 @@ inductive B1Out where
   deriving Repr, DecidableEq
 
 /-- "if (block.szx != lg_xmit->blk_size) { … }": the lg_xmit afterwards and `block.num` afterwards
-(`block.szx` / `block.aszx` keep the RESPONSE's value on every path) -/
+(`block.szx` / `block.aszx` afterwards: `xmitB1Szx`) -/
 def xmitB1Reneg (x : LgXmit) (num szx : Nat) : LgXmit × Nat :=
   let chunk := 2 ^ (x.blkSize + 4)
   if szx ≠ x.blkSize then
@@ -75,13 +75,18 @@ def xmitB1Reneg (x : LgXmit) (num szx : Nat) : LgXmit × Nat :=
     else (x, num)                                                    -- "next block is not aligned on requested block size boundary"
   else (x, num)
 
+/-- `block.szx` = `block.aszx` after "if (block.szx != lg_xmit->blk_size) { … }": a request to increase the size is
+ignored ("block.szx = block.aszx = lg_xmit->blk_size"), on the other paths the RESPONSE's value is kept -/
+def xmitB1Szx (x : LgXmit) (szx : Nat) : Nat :=
+  if szx > x.blkSize then x.blkSize else szx
+
 /-- "if (lg_xmit->last_block >= (int)block.num)" -/
 def isDupAck (lastBlock : Option Nat) (num : Nat) : Bool :=
   match lastBlock with
   | some lb => decide (lb ≥ num)
   | none => false
 
-/-- from the duplicate test on: `x1`, `num` as left by the renegotiation, `szx` = block.szx = block.aszx of the response -/
+/-- from the duplicate test on: `x1`, `num` as left by the renegotiation, `szx` = block.szx = block.aszx as left by it -/
 def xmitB1Next (x1 : LgXmit) (room num szx : Nat) : Option LgXmit × B1Out :=
   let chunk := 2 ^ (x1.blkSize + 4)
   if isDupAck x1.lastBlock num then (some x1, .dupIgnored)
@@ -101,7 +106,7 @@ def xmitB1Next (x1 : LgXmit) (room num szx : Nat) : Option LgXmit × B1Out :=
 as accepted by `coap_get_block_b`.  `none` state = lg_xmit unlinked and deleted (release callback run). -/
 def xmitB1Step (x : LgXmit) (room : Nat) (ok : Bool) (blk : Option (Nat × Nat)) : Option LgXmit × B1Out :=
   match ok, blk with
-  | true, some (num0, szx) => xmitB1Next (xmitB1Reneg x num0 szx).1 room (xmitB1Reneg x num0 szx).2 szx
+  | true, some (num0, szx) => xmitB1Next (xmitB1Reneg x num0 szx).1 room (xmitB1Reneg x num0 szx).2 (xmitB1Szx x szx)
   | true, none => (none, .finished)                -- "Not a block response asking for the next block" (not FETCH)
   | false, _ => (none, .finished)                  -- 4.13, 4.08, … (4.01 Echo retry is outside): failure of some sort
 
